@@ -69,11 +69,13 @@ def realizable(path):
 
 
 def export_tests(ctx, nprocs, nkeys, budget, maxtotal, name):
-    r = ctx.tlc("MC_Lock", cfg_text=mc_cfg(nprocs, nkeys, budget, None, "CONSTRAINT Cap\nACTION_CONSTRAINT ExportEdge\n", maxtotal),
+    r = ctx.tlc("MC_Lock", cfg_text=mc_cfg(nprocs, nkeys, budget, None, "CONSTRAINT Cap\nACTION_CONSTRAINT OrderedFirstCalls ExportEdge\n", maxtotal),
                 workers=1, deadlock=False, name=name, count_states=False, timeout=6000)
     if not r.ok:
         raise vlib.Inconclusive("edge export %s failed: %s %s" % (name, r.violated, r.error))
-    tests, ne, ns = edges.build_tests([x for x in r.printed if x.startswith("{")])
+    # (the AtRest stutter of the spec shows up as a self-loop labelled with the previous action: not a transition)
+    lines = [e for e in (json.loads(x) for x in r.printed if x.startswith("{")) if edges.key(e["from"]) != edges.key(e["to"])]
+    tests, ne, ns = edges.build_tests(lines)
     ok = [t for t in tests if realizable(t)]
     return ok, dict(edges=ne, states=ns, paths=len(tests), realizable=len(ok))
 
